@@ -46,11 +46,23 @@ def basenames(shapes_cls_instance):
     return out
 
 
-def key_of(sp):
-    from pptx.enum.shapes import PP_PLACEHOLDER
+PH_XPATH = ("./*[p:nvSpPr/p:nvPr/p:ph or p:nvPicPr/p:nvPr/p:ph or p:nvGraphicFramePr/p:nvPr/p:ph or p:nvCxnSpPr/p:nvPr/p:ph "
+            "or p:nvGrpSpPr/p:nvPr/p:ph]")
 
-    t = sp.ph_type
-    return (t.xml_value if hasattr(t, "xml_value") else PP_PLACEHOLDER.to_xml(t), sp.ph_idx, sp.ph_orient == "vert", sp.ph_sz)
+
+def ph_elms(spTree):
+    """the shape-tree children that carry a p:ph, whatever kind of shape element they are (read from the XML, not
+    through the library's own iterator)"""
+    return etree.ElementBase.xpath(spTree, PH_XPATH, namespaces={"p": P_NS})
+
+
+def ph_of(sp):
+    return etree.ElementBase.xpath(sp, "./*/p:nvPr/p:ph", namespaces={"p": P_NS})[0]
+
+
+def key_of(sp):
+    ph = ph_of(sp)
+    return (ph.get("type", "obj"), int(ph.get("idx", "0")), ph.get("orient", "horz") == "vert", ph.get("sz", "full"))
 
 
 MASTER_TYPE = {"title": "title", "ctrTitle": "title", "dt": "dt", "ftr": "ftr", "sldNum": "sldNum", "body": "body", "chart": "body",
@@ -61,6 +73,8 @@ def xfrm_of(sp):
     """(x, y, cx, cy) read directly from p:spPr/a:xfrm of a placeholder element; None per missing value"""
     spPr = sp.find("{%s}spPr" % P_NS)
     xfrm = spPr.find("{%s}xfrm" % A_NS) if spPr is not None else None
+    if sp.tag == "{%s}graphicFrame" % P_NS:
+        xfrm = sp.find("{%s}xfrm" % P_NS)
     if xfrm is None:
         return (None, None, None, None)
     off, ext = xfrm.find("{%s}off" % A_NS), xfrm.find("{%s}ext" % A_NS)
@@ -90,7 +104,7 @@ def gen_notes_master(rng, prs):
 
     nm = prs.notes_master
     spTree = nm.shapes._spTree
-    for sp in list(spTree.iter_ph_elms()):
+    for sp in list(ph_elms(spTree)):
         spTree.remove(sp)
     types = [rng.choice(["hdr", "dt", "sldImg", "body", "ftr", "sldNum"]) for _ in range(rng.randint(0, 7))]
     for i, ty in enumerate(types):
@@ -108,7 +122,7 @@ def gen_layout_population(rng, layout):
     from pptx.oxml import parse_xml
 
     spTree = layout.shapes._spTree
-    for sp in list(spTree.iter_ph_elms()):
+    for sp in list(ph_elms(spTree)):
         spTree.remove(sp)
     n = rng.randint(0, 7)
     used = []
@@ -123,6 +137,21 @@ def gen_layout_population(rng, layout):
         geom = "" if rng.random() < 0.3 else f'<a:xfrm><a:off x="{rng.choice([0, rng.randint(0, 10**6)])}" y="{rng.choice([0, rng.randint(0, 10**6)])}"/><a:ext cx="{rng.randint(1, 10**6)}" cy="{rng.randint(1, 10**6)}"/></a:xfrm>'
         name = rng.choice(["Title %d" % rng.randint(1, 9), "Text Placeholder %d" % rng.randint(1, 9), "Content Placeholder 2", "P%d" % i, "Picture Placeholder %d" % rng.randint(1, 9)])
         typ = "" if ty == "obj" and rng.random() < 0.5 else f' type="{ty}"'
+        kind = rng.random()
+        phx = f'<p:ph{typ}{orient}{sz}{"" if idx is None else " idx=%s%d%s" % (chr(34), idx, chr(34))}/>'
+        if kind < 0.1:
+            # a placeholder that is a p:pic (other producers write a filled picture placeholder into a layout)
+            spTree.append(parse_xml(
+                f'<p:pic xmlns:p="{P_NS}" xmlns:a="{A_NS}"><p:nvPicPr><p:cNvPr id="{i + 2}" name="{name}"/><p:cNvPicPr/><p:nvPr>{phx}</p:nvPr></p:nvPicPr>'
+                f'<p:blipFill><a:blip/><a:stretch><a:fillRect/></a:stretch></p:blipFill><p:spPr>{geom}</p:spPr></p:pic>'))
+            continue
+        if kind < 0.2:
+            gx = geom.replace("a:xfrm", "p:xfrm") if geom else '<p:xfrm><a:off x="0" y="0"/><a:ext cx="5" cy="5"/></p:xfrm>'
+            spTree.append(parse_xml(
+                f'<p:graphicFrame xmlns:p="{P_NS}" xmlns:a="{A_NS}"><p:nvGraphicFramePr><p:cNvPr id="{i + 2}" name="{name}"/><p:cNvGraphicFramePr/>'
+                f'<p:nvPr>{phx}</p:nvPr></p:nvGraphicFramePr>{gx}<a:graphic><a:graphicData uri="http://schemas.openxmlformats.org/drawingml/2006/table">'
+                f'<a:tbl><a:tblGrid/></a:tbl></a:graphicData></a:graphic></p:graphicFrame>'))
+            continue
         xml = (f'<p:sp xmlns:p="{P_NS}" xmlns:a="{A_NS}"><p:nvSpPr><p:cNvPr id="{i + 2}" name="{name}"/><p:cNvSpPr><a:spLocks noGrp="1"/></p:cNvSpPr>'
                f'<p:nvPr><p:ph{typ}{orient}{sz}{"" if idx is None else " idx=%s%d%s" % (chr(34), idx, chr(34))}/></p:nvPr></p:nvSpPr><p:spPr>{geom}</p:spPr>'
                f'<p:txBody><a:bodyPr/><a:lstStyle/><a:p/></p:txBody></p:sp>')
@@ -133,8 +162,9 @@ def check_add_slide(ctx, prs, layout, rng, label, lines, impl, metas):
     from pptx.oxml.ns import qn
 
     others = [(s, etree.tostring(s.part._element, method="c14n")) for s in prs.slides]
+    parts_before = [s.part for s in prs.slides]
     n_before = len(prs.slides)
-    cloneable = [sp for sp in layout.shapes._spTree.iter_ph_elms() if key_of(sp)[0] not in ("dt", "ftr", "sldNum")]
+    cloneable = [sp for sp in ph_elms(layout.shapes._spTree) if key_of(sp)[0] not in ("dt", "ftr", "sldNum")]
     want_keys = [key_of(sp) for sp in cloneable]
     case = {"deck": label, "layout": layout.name, "layout_placeholders": [str(k) for k in want_keys]}
     try:
@@ -150,7 +180,7 @@ def check_add_slide(ctx, prs, layout, rng, label, lines, impl, metas):
         return None
     ctx.case(key=(label, layout.name, tuple(want_keys), n_before))
     ctx.count("add_slide"); ctx.count("layout-placeholders", len(want_keys))
-    got = [sp for sp in slide.shapes._spTree.iter_ph_elms()]
+    got = [sp for sp in ph_elms(slide.shapes._spTree)]
     got_keys = [key_of(sp) for sp in got]
     if got_keys != want_keys:
         ctx.fail("placeholders-not-mirrored", f"{label}/{layout.name}: slide placeholders {got_keys}, layout's cloneable placeholders {want_keys}", case)
@@ -171,16 +201,35 @@ def check_add_slide(ctx, prs, layout, rng, label, lines, impl, metas):
     # inheritance: each slide placeholder reports, per attribute, its own value, else that of the FIRST layout
     # placeholder with the same idx, else that of the FIRST master placeholder of the mapped type -- computed here from
     # the raw XML (not through the library's layout objects) and by the Lean model
-    lay_rows = [(sp.ph_idx, key_of(sp)[0], xfrm_of(sp)) for sp in layout.shapes._spTree.iter_ph_elms()]
+    lay_rows = [(key_of(sp)[1], key_of(sp)[0], xfrm_of(sp)) for sp in ph_elms(layout.shapes._spTree)]
     try:
-        mas_rows = [(key_of(sp)[0], xfrm_of(sp)) for sp in layout.slide_master.shapes._spTree.iter_ph_elms()]
+        mas_rows = [(key_of(sp)[0], xfrm_of(sp)) for sp in ph_elms(layout.slide_master.shapes._spTree)]
     except KeyError:
         # a corpus deck whose layout part has no slide-master relationship (a fragment used by the acceptance tests): nothing
         # to inherit from above the layout; geometry that needs the master is not judged there
         mas_rows = None
+    lay_by_idx = {}
+    for sp in ph_elms(layout.shapes._spTree):
+        lay_by_idx.setdefault(key_of(sp)[1], sp)
     for ph in (slide.placeholders if mas_rows is not None else []):
         own = xfrm_of(ph.element)
         gotg = (ph.left, ph.top, ph.width, ph.height)
+        lay_el = lay_by_idx.get(ph.element.ph_idx)
+        if lay_el is not None and lay_el.tag != "{%s}sp" % P_NS:
+            # the layout counterpart is a p:pic / p:graphicFrame placeholder: the library has no layout-placeholder class
+            # for these, so what the layout element does not give is not looked up on the master (recorded finding);
+            # what it does give is reported
+            want = expected_geometry(own, ph.element.ph_idx, lay_rows, mas_rows)
+            lay_own = xfrm_of(lay_el)
+            direct = tuple(o_ if o_ is not None else l_ for o_, l_ in zip(own, lay_own))
+            ctx.count("layout-counterpart-not-p:sp")
+            if gotg != want:
+                if gotg == direct:
+                    ctx.fail("inherited-geometry:layout-placeholder-not-p:sp", f"{label}/{layout.name}: placeholder idx={ph.element.ph_idx}, whose layout counterpart is a "
+                             f"<{etree.QName(lay_el).localname}> without its own position/size, reports {gotg}; the master gives {want}", case)
+                else:
+                    ctx.fail("inherited-geometry", f"{label}/{layout.name}: placeholder idx={ph.element.ph_idx} reports {gotg}; own/layout/master XML gives {want}", case)
+            continue
         for a, attr in enumerate(("left", "top", "width", "height")):
             o = lambda v: "n" if v is None else str(int(v))  # noqa: E731
             lines.append("c13.rep %s %d %s %s" % (o(own[a]), ph.element.ph_idx,
@@ -190,14 +239,41 @@ def check_add_slide(ctx, prs, layout, rng, label, lines, impl, metas):
         want = expected_geometry(own, ph.element.ph_idx, lay_rows, mas_rows)
         if gotg != want:
             ctx.fail("inherited-geometry", f"{label}/{layout.name}: placeholder idx={ph.element.ph_idx} reports {gotg}; own/layout/master XML gives {want}", case)
-        if rng.random() < 0.3:
+        r_ = rng.random()
+        if r_ < 0.3:
             # "until overridden": assigning values (0 included) makes the placeholder report them
             new = tuple(rng.choice([0, 0, 7, rng.randint(0, 10**6)]) for _ in range(4))
             ph.left, ph.top, ph.width, ph.height = new
             if (ph.left, ph.top, ph.width, ph.height) != new:
                 ctx.fail("override-geometry", f"{label}/{layout.name}: geometry overridden with {new} reads {(ph.left, ph.top, ph.width, ph.height)}", case)
+        elif r_ < 0.6 and gotg == want and hasattr(ph, "rotation"):
+            # one value at a time, in any order, rotation in between: what was not assigned keeps reporting the inherited value
+            attrs = ["left", "top", "width", "height"]
+            steps = rng.sample(attrs + ["rotation"], rng.randint(1, 4))
+            cur = dict(zip(attrs, want))
+            hist = []
+            for a_ in steps:
+                v_ = rng.choice([0, 7, rng.randint(1, 10**6)])
+                try:
+                    setattr(ph, a_, float(v_ % 360) if a_ == "rotation" else v_)
+                except Exception as e:  # noqa
+                    ctx.fail("override-geometry", f"{label}/{layout.name}: {a_} = {v_} raised {type(e).__name__}", case)
+                    break
+                hist.append((a_, v_))
+                if a_ != "rotation":
+                    cur[a_] = v_
+                now = {x: getattr(ph, x) for x in attrs}
+                bad = {x: (now[x], cur[x]) for x in attrs if now[x] != cur[x] and not (cur[x] is None and now[x] in (0, None))}
+                if bad:
+                    ctx.fail("override-geometry:partial", f"{label}/{layout.name}: placeholder idx={ph.element.ph_idx} after {hist}: "
+                             f"{ {k: v[0] for k, v in bad.items()} } reported, expected { {k: v[1] for k, v in bad.items()} } (assigned or inherited)", case)
+                    break
+            ctx.count("partial-override-histories")
     if list(prs.slides)[-1].slide_id != slide.slide_id or len(prs.slides) != n_before + 1:
         ctx.fail("slide-not-last", f"{label}/{layout.name}: new slide is not the last in presentation order", case)
+    parts_after = [s.part for s in prs.slides]
+    if len(parts_after) != n_before + 1 or any(a is not b for a, b in zip(parts_after, parts_before)) or parts_after[-1] is not slide.part:
+        ctx.fail("other-slide-touched", f"{label}/{layout.name}: the slides before the new one are no longer the same slide parts in the same order", case)
     if slide.slide_layout.part is not layout.part:
         ctx.fail("slide-layout-relationship", f"{label}/{layout.name}: slide_layout is not the layout it was made from", case)
     for s, before in others:
@@ -216,15 +292,15 @@ def check_notes(ctx, prs, slide, label):
         ctx.fail("notes-slide-raises", f"{label}: notes_slide raised {type(e).__name__}: {str(e)[:100]}", case)
         return
     nm = prs.notes_master
-    want = [key_of(sp) for sp in nm.shapes._spTree.iter_ph_elms() if key_of(sp)[0] in ("sldImg", "body", "sldNum")]
-    got = [key_of(sp) for sp in ns.shapes._spTree.iter_ph_elms()]
+    want = [key_of(sp) for sp in ph_elms(nm.shapes._spTree) if key_of(sp)[0] in ("sldImg", "body", "sldNum")]
+    got = [key_of(sp) for sp in ph_elms(ns.shapes._spTree)]
     ctx.case(key=(label, "notes", slide.slide_id)); ctx.count("notes_slide")
     if got != want:
         ctx.fail("notes-not-mirrored", f"{label}: notes slide placeholders {got}, notes master's cloneable placeholders {want}", case)
-    names = [sp.nvSpPr.cNvPr.get("name") for sp in ns.shapes._spTree.iter_ph_elms()]
+    names = [sp.nvSpPr.cNvPr.get("name") for sp in ph_elms(ns.shapes._spTree)]
     if len(set(names)) != len(names):
         ctx.fail("notes-placeholder-names-not-unique", f"{label}: names {names}", case)
-    mas_rows = [(key_of(sp)[0], xfrm_of(sp)) for sp in nm.shapes._spTree.iter_ph_elms()]
+    mas_rows = [(key_of(sp)[0], xfrm_of(sp)) for sp in ph_elms(nm.shapes._spTree)]
     for ph in ns.placeholders:
         ty = key_of(ph.element)[0]
         own = xfrm_of(ph.element)
@@ -233,6 +309,28 @@ def check_notes(ctx, prs, slide, label):
         got_g = (ph.left, ph.top, ph.width, ph.height)
         if got_g != want_g:
             ctx.fail("notes-inherited-geometry", f"{label}: notes placeholder {ty} reports {got_g}; own/notes-master XML gives {want_g}", case)
+
+
+def rid_gap(data, rng):
+    """the same deck with a numbering gap in ppt/_rels/presentation.xml.rels: a relationship the presentation XML does
+    not refer to (view / presentation properties, table styles, printer settings) is dropped, as producers do"""
+    import re
+    import zipfile
+    z = zipfile.ZipFile(io.BytesIO(data))
+    pres = z.read("ppt/presentation.xml").decode("utf-8")
+    rels = z.read("ppt/_rels/presentation.xml.rels").decode("utf-8")
+    used = set(re.findall(r'r:id="([^"]+)"', pres))
+    cands = [m for m in re.finditer(r'<Relationship [^>]*?/>', rels)
+             if re.search(r'Id="([^"]+)"', m.group(0)).group(1) not in used and "theme" not in m.group(0)]
+    if not cands:
+        return data
+    m = rng.choice(cands)
+    rels = rels.replace(m.group(0), "")
+    out = io.BytesIO()
+    with zipfile.ZipFile(out, "w", zipfile.ZIP_DEFLATED) as zo:
+        for n in z.namelist():
+            zo.writestr(n, rels.encode("utf-8") if n == "ppt/_rels/presentation.xml.rels" else z.read(n))
+    return out.getvalue()
 
 
 def correspond(ctx):
@@ -259,7 +357,11 @@ def correspond(ctx):
         layout = prs.slide_layouts[rng.randrange(len(prs.slide_layouts))]
         gen_layout_population(rng, layout)
         if gi % 3 == 0:
+            if rng.random() < 0.5:
+                prs.slides.add_slide(prs.slide_layouts[6]); prs.slides.add_slide(prs.slide_layouts[6])
             b = io.BytesIO(); prs.save(b); b.seek(0)
+            if rng.random() < 0.6:
+                b = io.BytesIO(rid_gap(b.getvalue(), rng)); ctx.count("relationship-id-gap-decks")
             prs = Presentation(b)
             layout = [l for l in prs.slide_layouts if l.name == layout.name][0]
         for rep in range(rng.randint(1, 3)):
